@@ -24,9 +24,9 @@ CHECKS = {
  "C07": ("differential property testing (proptest): generated straight-line programs interpreted over cactusref and over std::rc; oracle: equality of observation traces and ordered destructor logs",
          "Same results from every shared API call and the same sequence of value destructions as std::rc::{Rc,Weak} of the installed toolchain, over generated no-adoption programs with values owning strong and Weak handles, payload alignments 8..128, a panicking Clone, and the shared API on non-Eq / zero-sized / odd-sized payloads (f64 with NaN, f32, u8, (), [u8;3], Option<f64>, (u8,f32)).", "4 C07"),
  "C08": ("model-based stateful property testing (proptest); oracle: link-table snapshots (hook H1) vs adoption ledger after every op",
-         "Tables equal the multiset of adoptions implied by the calls, mirrored on both ends, never naming a destroyed object.", "4 C08"),
+         "Tables equal the multiset of adoptions implied by the calls, mirrored on both ends, never naming a destroyed object; SAFE, CONSUME and ELIDE (known finding excluded) histories.", "4 C08"),
  "C09": ("metamorphic property testing (proptest): each generated history replayed under K perturbed heap layouts in separate forks; oracle: equal per-op destroyed sets and counts",
-         "What each operation destroys and every count observable afterwards is identical across K layouts (different addresses, hence different FxHash values and table iteration orders).", "4 C09"),
+         "What each operation destroys and every count observable afterwards is identical across K layouts (different addresses, hence different FxHash values and table iteration orders); fully recorded histories, a quarter of them with the handle-consuming ops (also make_mut in place on stored handles).", "4 C09"),
  "C10": ("model-based stateful property testing (proptest) with generated destructor action scripts (re-entrant API use); oracle: views of C01-C06 on the nested event log + no library panic",
          "Destructors that clone/drop/adopt/unadopt/downgrade/upgrade on outsiders (incl. nested collections) during every teardown path leave all C01-C06 views intact and meet no borrow conflict.", "4 C10"),
  "C11": ("fault injection driven by property testing (proptest): one armed panic per op inside generated payload destructors, run under catch_unwind; oracle: at-most-once log, reachability bound, Weak views, allocator faults, history continues",
@@ -36,18 +36,18 @@ CHECKS = {
  "C13": ("model-based stateful property testing (proptest) over histories with elided unadopt; oracle: reachability bound + allocator faults; known finding D4 excluded by an exact model predicate evaluated before each drop",
          "Apart from the listed known finding (exact signature in known_findings.json), no history with elided unadopt destroys a reachable object or touches freed memory.", "4 C13"),
  "C14": ("model-based stateful property testing (proptest) with cost instrumentation; oracle: trace counter (hook H2) and arena allocation counters around every clone/drop of a handle to an object without recorded adoptions",
-         "Every clone, and every drop of a handle to an object with no recorded adoption, runs zero traces and zero allocations (zero frees if the object stays alive).", "4 C14"),
+         "Every clone, and every drop of a handle to an object with no recorded adoption, runs zero traces and zero allocations (zero frees if the object stays alive); SAFE, NO-ADOPT, CONSUME and ELIDE histories, emptied hubs up to 70k adoptees.", "4 C14"),
  "C15": ("property testing over generated size/shape parameters (proptest), final drop on a 128 KiB stack in a forked child; oracle: completion, destructor count, hook counters bounded linearly",
-         "Orphaned groups up to 20k (quick) / 300k (thorough) objects are reclaimed on a 128 KiB stack with <= 8N+8 table scans and <= 8(N+E)+8 worklist pops (plus instruction-count growth probes) over all traces of the final drop.", "4 C15"),
+         "Orphaned groups up to 20k (quick) / 300k (thorough) objects are reclaimed on a 128 KiB stack with <= 8N+8 table scans and <= 8(N+E)+8 worklist pops (plus instruction-count growth probes, three of them with a Trace / Debug level sink logger) over all traces of the final drop.", "4 C15"),
  "C16": ("model-based stateful property testing (proptest) with process-level oracle: fork per case, exit status of the child",
-         "Cloning a stored handle to a destroyed (or condemned) peer from a destructor terminates the child by SIGILL/SIGABRT/SIGTRAP before the clone returns; clones of live peers succeed; drops of dead handles are inert.", "4 C16"),
+         "Cloning a stored handle to a destroyed (or condemned) peer from a destructor (Clone::clone, or Clone::clone_from into another stored handle) terminates the child by SIGILL/SIGABRT/SIGTRAP before the clone returns; clones of live peers succeed; drops of dead handles are inert.", "4 C16"),
 }
 NOT_YET = {}
 
 def main():
     checks = []
     BIG = {"C01", "C02", "C03", "C04", "C05", "C06", "C09", "C10", "C11", "C12", "C14", "C15", "C16"}
-    TYPES = {"C01", "C02", "C03", "C04", "C05", "C06", "C08", "C12"}
+    TYPES = {"C01", "C02", "C03", "C04", "C05", "C06", "C08", "C11", "C12"}
     SWEEP = {"C01", "C02", "C03", "C04", "C05", "C06", "C08"}
     FUZZ = {"C01", "C02", "C03", "C05", "C06", "C08", "C10", "C12"}
     for pid, (tech, text, ref) in sorted(CHECKS.items()):
@@ -55,7 +55,7 @@ def main():
         if pid in BIG:
             extra.append("large-scale cases under the same oracle (generated: rings with adopted tails / chords / sinks up to 8k quick / 120k thorough objects, payload with and without drop glue; per property also sole-holder sweeps over every ring member, complete digraphs up to 1.2M records, nested-collection chains up to 20000 deep, emptied hubs up to 70k adoptees, panicking / cloning destructors)")
         if pid in TYPES:
-            extra.append("payload-type matrix: generated histories on Rc<T> for 12 payload types (zero-sized, sizes not a multiple of 8, > 4 KiB, 70 KB, align 256 / 4096, with and without drop glue / destructor) with ownership kept outside the values, same reference model")
+            extra.append("payload-type matrix: generated histories on Rc<T> for 12 payload types (zero-sized, sizes not a multiple of 8, > 4 KiB, 70 KB, align 256 / 4096, with and without drop glue / destructor) with ownership kept outside the values, destructor-time releases of handles to dying peers and (C01-C03, C11) panicking destructors, same reference model")
         if pid in SWEEP:
             extra.append("small-scope sweep over all adoption multigraphs on <= 3 objects x kept roots x Weaks x drop orders (1.95M histories; quick: every 48th, thorough: all, exhaustive)")
         if pid in FUZZ:
